@@ -46,6 +46,53 @@ def C02(tier, seed):
     return _step("C02", tier, seed, R.USER)
 
 
+def C19(tier, seed):
+    from harness import labels
+    from .core import Run
+
+    q = tier == "quick"
+    runs = [
+        Run("unique:T3xP2" if q else "unique:T4xP3", labels.unique_harness, dict(shape=(3, 2) if q else (4, 3)),
+            labels.unique_replay, ("returned", "witness:two_frames_labelled"),
+            "label array of %s cells, labels arbitrary non-negative integers" % ("3x2" if q else "4x3")),
+        Run("unique:multiseg:2x2x2", labels.unique_harness, dict(shape=(2, 2, 2), multiseg=True),
+            labels.unique_replay, ("returned",), "2 hypotheses x 2 frames x 2 cells, labels arbitrary integers >= 0"),
+        Run("bytrack:N=%d" % (3 if q else 4), labels.bytrack_harness,
+            dict(N=3 if q else 4, T=3, P=2 if q else 3), labels.bytrack_replay,
+            ("returned", "witness:division_present"),
+            "solution forest on <= %d detections over 3 frames (all shapes), %d cells per frame, cell labels and "
+            "seg ids arbitrary integers" % ((3, 2) if q else (4, 3))),
+    ]
+    return run_property("C19", tier, runs, explanation=R.EXPL, seed=seed, assumptions=[
+        "labels are non-negative mathematical integers (uint64 wrap-around outside the claim)",
+        "detections of the solution graph are distinct (time, seg_id) pairs with time inside the array",
+        "SArr model conforms to numpy for the operations used (self-test)"],
+        stubs=["numpy ndarray -> SArr (symbolic cells)"])
+
+
+def C13(tier, seed):
+    from harness import relabel
+    from .core import Run
+
+    q = tier == "quick"
+    M, T, P = (3, 2, 3) if q else (3, 3, 3)
+    b = "<=%d nodes (ids 0..4 distinct, seg ids 1..3 distinct per frame, all assignments), %d frames x %d cells, " \
+        "cell labels arbitrary integers >= 0" % (M, T, P)
+    runs = [
+        Run("relabel_segmentation", relabel.harness, dict(T=T, P=P, M=M), relabel.replay,
+            ("relabelled", "shifted", "unshifted"), b),
+        Run("handle_segmentation", relabel.harness, dict(T=T, P=P, M=2 if q else 3, via_builder=True), relabel.replay,
+            ("relabelled", "shortcut"), b.replace("<=%d" % M, "<=%d" % (2 if q else 3))),
+    ]
+    return run_property("C13", tier, runs, explanation=R.EXPL, seed=seed, assumptions=[
+        "node ids, seg ids and times are dict keys inside the function: drawn from small stated ranges and "
+        "enumerated by solver-guided forks; the cell labels are unconstrained symbolic integers",
+        "load_segmentation is the identity on an in-memory array (dask wrapping cut); validate_graph_seg_match not "
+        "reached (no position on the graph)",
+        "labels are mathematical integers (uint64 wrap-around outside the claim)"],
+        stubs=["load_segmentation -> identity", "numpy ndarray -> SArr"])
+
+
 def replay_file(prop, path):
     from harness import step_replay
 
